@@ -803,6 +803,10 @@ impl Blockchain {
                 (prev_count - transactions.len())
             );
             for tx in transactions {
+                // keep the input reservations in step with the pooled transactions
+                for input in tx.from.iter() {
+                    mempool.utxo_map.insert(input.utxoset_key, 1);
+                }
                 mempool.transactions.insert(tx.signature, tx);
             }
             mempool.new_tx_added = true;
